@@ -8,7 +8,7 @@ from typing import Dict
 from jaqalpaq.error import JaqalError
 from jaqalpaq.core.algorithm.visitor import Visitor
 from jaqalpaq.core.circuit import Circuit
-from jaqalpaq.core.block import BlockStatement, LoopStatement
+from jaqalpaq.core.block import BlockStatement, LoopStatement, validate_iterations
 from jaqalpaq.core.gatedef import GateStatement
 from jaqalpaq.core.macro import Macro
 from jaqalpaq.core.register import Register, NamedQubit
@@ -110,16 +110,21 @@ class GateReplacer(Visitor):
         return self.visit(macro.body)
 
     def visit_BlockStatement(self, block: BlockStatement):
+        iterations = filter_float(self.visit(block.iterations))
+        if block.subcircuit:
+            validate_iterations(iterations, "subcircuit")
         return BlockStatement(
             parallel=block.parallel,
             subcircuit=block.subcircuit,
-            iterations=self.visit(block.iterations),
+            iterations=iterations,
             statements=[self.visit(stmt) for stmt in block.statements],
         )
 
     def visit_LoopStatement(self, loop: LoopStatement):
+        iterations = filter_float(self.visit(loop.iterations))
+        validate_iterations(iterations, "loop")
         return LoopStatement(
-            iterations=self.visit(loop.iterations),
+            iterations=iterations,
             statements=self.visit(loop.statements),
         )
 
